@@ -598,6 +598,7 @@ func (w *World) loop(maxSteps int) {
 		idleBudget = 80
 	}
 	for {
+		core.Tick()
 		time.Sleep(time.Nanosecond)
 		synctest.Wait()
 		w.collect()
